@@ -291,6 +291,8 @@ var solvers = []solverDef{
 	}},
 }
 
+func contextBG() context.Context { return context.Background() }
+
 func firstLine(s string) string {
 	s = strings.TrimSpace(s)
 	if i := strings.IndexByte(s, '\n'); i >= 0 {
